@@ -117,6 +117,9 @@ class Fixture(object):
         if self.mode == "timed":
             import rpyc
             self.do(None, lambda: setattr(self, "res", rpyc.timed(self.fake_fn, expiry)("data")))
+        elif self.mode == "areq":
+            self.do(None, lambda: setattr(self, "res", self.conn.async_request(
+                c.HANDLE_PING, "data", timeout=None if expiry == NONE_T else expiry)))
         else:
             self.do(None, lambda: setattr(self, "res", self.conn.async_request(c.HANDLE_PING, "data")))
         frs, _ = sim.split_frames(self.net.a.written)
@@ -172,12 +175,12 @@ def replay(chk, beh, mode="async"):
     """returns list of (key, message) disagreements between the code and the specification"""
     labels = [l for l, _ in beh]
     first_exp = None
-    if mode in ("sync", "timed"):
+    if mode in ("sync", "timed", "areq"):
         first_exp = int(labels[1].split("(")[1].rstrip(")"))
-    fx = Fixture(mode="timed" if mode == "timed" else "async")
+    fx = Fixture(mode=mode if mode in ("timed", "areq") else "async")
     bad = []
     try:
-        if mode == "timed":
+        if mode in ("timed", "areq"):
             fx.create(expiry=first_exp)
             fx.obs.append(("set_expiry", first_exp, 0))
             start = 2
@@ -286,12 +289,22 @@ def main():
         paths = paths[:maxp]
     for pi, path in enumerate(paths):
         beh = [("Init", g.nodes[path[0]])] + [(lab, g.nodes[dst]) for lab, dst in path[1:]]
-        bad, labels = replay(chk, beh, "async")
-        chk.distinct(("wait-graph", tuple(labels)))
-        if not bad:
-            chk.validated()
-        for key, msg in bad:
-            chk.violation(key, "C15 [wait-focused] %s" % msg, {"mode": "graph", "labels": labels})
+        labels = [l for l, _ in beh]
+        modes = ["async"]
+        if len(labels) > 2 and labels[1].startswith("SetExpiry") and beh[1][1]["now"] == 0:
+            t0 = int(labels[1].split("(")[1].rstrip(")"))
+            modes.append("areq")
+            if labels[2] == "StartWait":
+                modes.append("sync")
+            if t0 >= 0:
+                modes.append("timed")
+        for mode in modes:
+            bad, labels = (replay_sync(chk, beh) if mode == "sync" else replay(chk, beh, mode))
+            chk.distinct(("wait-graph", mode, tuple(labels)))
+            if not bad:
+                chk.validated()
+            for key, msg in bad:
+                chk.violation(key, "C15 [wait-focused, %s] %s" % (mode, msg), {"mode": "graph", "labels": labels})
         if pi % 300 == 299:
             gc.collect()
     chk.cov["wait_graph_paths"] = len(paths)
@@ -308,6 +321,8 @@ def main():
                 continue
             labels = [l for l, _ in beh]
             modes = ["async"]
+            if labels[1].startswith("SetExpiry"):
+                modes.append("areq")
             if labels[1].startswith("SetExpiry") and len(labels) > 2 and labels[2] == "StartWait":
                 modes.append("sync")
                 if int(labels[1].split("(")[1].rstrip(")")) >= 0:
